@@ -257,6 +257,9 @@ def as_kind(pv, kind, st=None):
             if t == 'dict': return dict_c(Val.dk(pv.z))
         if pv.kind == 'int' and t == 'real': return ToReal(pv.z)
         if pv.kind == 'bool' and t == 'int': return If(pv.z, IntVal(1), IntVal(0))
+    if isinstance(pv, PBound) and t == 'str':
+        # a bound method of the object itself kept in one of its fields (strategy selection): identified by its name
+        return StringVal('method:' + pv.name)
     if isinstance(pv, PDict) and t == 'dict': return pv.arr
     if isinstance(pv, PSet) and t in ('refset', 'valset', 'strset'): return pv.arr
     if isinstance(pv, PMap) and t == 'map': return pv.arr
